@@ -167,3 +167,15 @@ Example ex_strict_unbound :
   In (LVar (s "zz")) (blocks [(s "xs", VList [IStr (s "a")])] ex_loop) /\
   render_impl true [] [(s "xs", VList [IStr (s "a")])] (print ex_loop) = Err (EMissing (s "zz")).
 Proof. vm_compute. split; auto. Qed.
+
+(* a history on one instance: the first call raises inside the include (strict, email missing),
+   the retry renders the include - its outcome is that of a fresh instance *)
+Definition ex_footer : list (str * template) :=
+  [(s "footer", [NLeaf (LText (s "Contact: ")); NLeaf (LVar (s "email"))])].
+Definition ex_page : template := [NLeaf (LVar (s "title")); NLeaf (LText (s " / ")); NLeaf (LInc (s "footer"))].
+Example ex_history :
+  map fst (run_calls (mkInstance ex_footer true 0)
+             [(ex_page, [(s "title", VStr (s "Report"))]);
+              (ex_page, [(s "title", VStr (s "Report")); (s "email", VStr (s "ops@example.org"))])]) =
+  [Err (EMissing (s "email")); Ok (s "Report / Contact: ops@example.org") []].
+Proof. vm_compute. reflexivity. Qed.
